@@ -137,6 +137,17 @@ static size_t digest_input(const struct mpath *m, int j, uint8_t *out)
 	return o;
 }
 
+/* a sample of the tuples judged by EVP goes to <outfile>.p256 for the pure-Python second opinion (lib/p256.py) */
+static FILE *P256F;
+static long P256_BUDGET;
+static const uint8_t *P256_SPKI; /* SPKI of the key being tried, set by the caller */
+
+static void hexout(FILE *f, const uint8_t *b, size_t n)
+{
+	for (size_t i = 0; i < n; i++)
+		fprintf(f, "%02x", b[i]);
+}
+
 static int evp_verify(EVP_PKEY *pk, const uint8_t *msg, size_t n, const uint8_t *sig, size_t sl)
 {
 	EVP_MD_CTX *c = EVP_MD_CTX_new();
@@ -145,6 +156,20 @@ static int evp_verify(EVP_PKEY *pk, const uint8_t *msg, size_t n, const uint8_t 
 	EVP_DigestVerifyInit(c, NULL, EVP_sha256(), NULL, pk);
 	rc = EVP_DigestVerify(c, sig, sl, msg, n);
 	EVP_MD_CTX_free(c);
+	if (P256F && P256_BUDGET > 0 && P256_SPKI && sl > 0) {
+		/* keep accepted and rejected tuples alike */
+		static unsigned long seen;
+
+		if ((seen++ % 97) == 0 || (rc == 1 && (seen % 11) == 0)) {
+			P256_BUDGET--;
+			hexout(P256F, msg, n);
+			fputc(' ', P256F);
+			hexout(P256F, P256_SPKI, SPKI_SIZE);
+			fputc(' ', P256F);
+			hexout(P256F, sig, sl);
+			fprintf(P256F, " %d\n", rc == 1);
+		}
+	}
 	return rc == 1;
 }
 
@@ -195,7 +220,9 @@ static int oracle_valid(const struct mpath *m, const struct mtable *t, bool *ski
 		for (int e = 0; e < t->n && !ok; e++) {
 			if (memcmp(t->e[e].ski, m->h[j].ski, SKI_SIZE) || t->e[e].asn != m->h[j].asn)
 				continue;
+			P256_SPKI = KEYS[t->e[e].key].spki;
 			ok = evp_verify(KEYS[t->e[e].key].pkey, buf, n, m->h[j].sig, m->h[j].sig_len);
+			P256_SPKI = NULL;
 		}
 		all &= ok;
 	}
@@ -531,7 +558,11 @@ static void run_sign_case(struct rng *r, long c, int maxhops)
 				memcpy(m.h[j].ski, KEYS[keyidx[j]].ski, SKI_SIZE);
 				n = digest_input(&m, j, buf);
 				CNT("c12/signatures_verified_independently");
-				if (!evp_verify(KEYS[keyidx[j]].pkey, buf, n, m.h[j].sig, m.h[j].sig_len)) {
+				P256_SPKI = KEYS[keyidx[j]].spki;
+				bool vok = evp_verify(KEYS[keyidx[j]].pkey, buf, n, m.h[j].sig, m.h[j].sig_len);
+
+				P256_SPKI = NULL;
+				if (!vok) {
 					snprintf(key, sizeof(key), "C12:signature-does-not-verify:%s", j == m.n - 1 ? "origination" : "forwarding");
 					viol("C12", key, "signature generated for hop %d of %d does not verify under the matching public key over the RFC 8205 4.2 sequence (NLRI afi %u len %u)",
 					     j, m.n, m.nlri_afi, m.nlri_len);
@@ -674,6 +705,13 @@ int main(int argc, char **argv)
 	int nflips = (int)argkv_l(argc, argv, "flips", 36);
 
 	vo_open(argv[5]);
+	{
+		char pth[4200];
+
+		snprintf(pth, sizeof(pth), "%s.p256", argv[5]);
+		P256F = fopen(pth, "w");
+		P256_BUDGET = argkv_l(argc, argv, "p256", 2);
+	}
 	make_keys();
 	for (long c = from; c < to; c++) {
 		struct rng r;
@@ -687,6 +725,8 @@ int main(int argc, char **argv)
 		else
 			return 2;
 	}
+	if (P256F)
+		fclose(P256F);
 	vo_close();
 	return 0;
 }
